@@ -26,10 +26,19 @@ type idVal struct {
 	isSet bool
 	s     data.IntSet
 	m     data.IntMap
+	panic string // the operation that should have produced this value panicked
 }
 
 // observation of one value through the exported API only
-func idObserve(v idVal, probe []int) J {
+func idObserve(v idVal, probe []int) (obs J) {
+	if v.panic != "" {
+		return J{"t": "panic", "o": v.panic, "n": -1}
+	}
+	defer func() { // an observer that panics is an observation, too
+		if r := recover(); r != nil {
+			obs = J{"t": "panic", "o": fmt.Sprint(r), "n": -1}
+		}
+	}()
 	if v.isSet {
 		o := []int{}
 		v.s.Each(func(x int) { o = append(o, x) })
@@ -51,7 +60,18 @@ func idObserve(v idVal, probe []int) J {
 	return J{"t": "map", "o": o, "n": len(keys), "e": e, "g": g}
 }
 
-func idApply(vals []idVal, op idOp) ([]idVal, error) {
+// idApply: a panic of an operation is recorded as its (un)value; the model has no such value
+func idApply(vals []idVal, op idOp) (out []idVal, err error) {
+	defer func() {
+		if r := recover(); r != nil {
+			isSet := op.Op == "NewIntSet" || op.Op == "Insert" || op.Op == "Union" || op.Op == "EmptyIntSet"
+			out, err = append(vals, idVal{isSet: isSet, panic: fmt.Sprint(r)}), nil
+		}
+	}()
+	return idApply0(vals, op)
+}
+
+func idApply0(vals []idVal, op idOp) ([]idVal, error) {
 	get := func(i int, set bool) (idVal, error) {
 		if i < 1 || i > len(vals) || vals[i-1].isSet != set {
 			return idVal{}, fmt.Errorf("bad operand %d for %s", i, op.Op)
